@@ -234,12 +234,19 @@ func (z *flowSer) stmt(o *a.Node) string {
 		lhs, rhs, op := n.LHS(), n.RHS(), n.Operator()
 		if rhs.Operator() == t.IDOpenParen {
 			recv, meth, args, ok := rhs.IsMethodCall()
-			if !ok || lhs != nil || recv.Operator() != 0 || recv.Ident() != t.IDThis {
+			if !ok || recv.Operator() != 0 || recv.Ident() != t.IDThis {
 				return z.fail("call " + rhs.Str(z.tm))
 			}
 			fn := z.funcs[meth]
 			if fn == nil {
 				return z.fail("call of an unknown method")
+			}
+			if lhs != nil {
+				// `x = this.m!(args)`: the value of an impure, non-coroutine call
+				if op != t.IDEq || lhs.Operator() == t.IDOpenBracket || !fn.Effect().Impure() || fn.Effect().Coroutine() || fn.Out() == nil {
+					return z.fail("call " + rhs.Str(z.tm))
+				}
+				return "callassign " + z.expr(lhs) + " " + z.typ(fn.Out()) + " " + z.callArgs(fn, args)
 			}
 			switch {
 			case fn.Effect().Coroutine():
